@@ -33,6 +33,7 @@ def runs(prop, tier):
          ("blob grammar K=3,T=2 x patterns U, M3, k in {%s}" % ks_q, [["--grammar", "blobs:3:2", "--alpha", a, "--ks", ks_q] for a in ("U", "M3")]),
          ("dense families x U", [["--families", "K:6,K:7,wheel:6,prism:4,petersen,Kb:3:4,grid:3:4,cube:3", "--alpha", "U", "--ks", ks_q]]),
          ("G(5) x {1,100} (extreme weight ratio)", [["--n", 5, "--alpha", "H2", "--ks", ks_q]]),
+         ("weights with 26 significant bits: G(4) x B3, G(5) x B2", [["--n", 4, "--alpha", "B3", "--ks", ks_q], ["--n", 5, "--alpha", "B2", "--ks", ks_q]]),
          ("weights spanning 60 binary orders of magnitude: G(4) x A3 and G(5) x A2, each with one more component = a single edge weighing 2^60",
           [["--n", 4, "--alpha", "A3", "--ks", ks_q, "--plus-heavy-k2"], ["--n", 5, "--alpha", "A2", "--ks", ks_q, "--plus-heavy-k2"], ["--n", 5, "--alpha", "H2", "--ks", ks_q, "--plus-heavy-k2", "--min-m", 7]]),
          ("symmetric families under 30 renumberings x U, M2", [["--families", FAMS_SYM, "--relabel", 30, "--alpha", a, "--ks", ks_q] for a in ("U", "M2")]),
@@ -66,7 +67,7 @@ def _build():
 
 def run(prop, tier):
     c = vlib.Check(prop, tier, "exploration", RULE[prop], "approx")
-    c.deadline = 110 if tier == "quick" else 1500
+    c.deadline = 170 if tier == "quick" else 1500
     c.assumptions = ["reference oracle (all simple cycles + GF(2) greedy) is correct and independent of parmcb",
                      "weights integer or dyadic, so all comparisons are exact",
                      "C15 reads private members via -fno-access-control; member names are an interface of this harness (build failure = harness error)"]
